@@ -80,12 +80,12 @@ TypeDef ==
     @@ "vec_set_u8" :> Vec(Set(U8))
     @@ "map_u8_u8" :> Map(U8, U8)
     @@ "map_u8_set_u8" :> Map(U8, Set(U8))
-    @@ "map_str_vec_u8" :> Map(Str, Vec(U8))
+    @@ "map_str_u8" :> Map(Str, U8)
     @@ "bmap_u8_vec_u8" :> BMap(U8, Vec(U8))
     @@ "heap_u8" :> Heap(U8)
     @@ "pair_set_u8_set_u8" :> Tup(<<Set(U8), Set(U8)>>)
     @@ "enum_e" :> EnumE
-    @@ "vec_enum_e" :> Vec(EnumE)
+    @@ "pair_enum_e_u8" :> Tup(<<EnumE, U8>>)
 
 AllTypeNames == DOMAIN TypeDef
 
